@@ -101,6 +101,10 @@ type genFn func(o *Out, rng *rand.Rand, tier string)
 var gens = map[string]genFn{}
 
 func main() {
+	if len(os.Args) == 4 && os.Args[1] == "measure" {
+		measureMain(os.Args[2], os.Args[3])
+		return
+	}
 	if len(os.Args) < 3 || os.Args[1] != "gen" {
 		fmt.Fprintln(os.Stderr, "usage: vh gen <family> -o file [-seed N] [-tier quick|thorough]")
 		var names []string
